@@ -5,6 +5,7 @@ import (
 	"go/ast"
 	"go/token"
 	"go/types"
+	"os"
 	"strconv"
 	"strings"
 )
@@ -241,7 +242,13 @@ func (e *Engine) verifyFunc(key string) (ctx *FuncCtx) {
 				c.limit = el.msg
 				return
 			}
-			panic(r)
+			// a crash of the generator on this function is a limit of the
+			// engine, not the end of the run: the function is reported as one
+			// whose obligations could not be generated
+			if os.Getenv("GOVC_DEBUG_PANIC") != "" {
+				panic(r)
+			}
+			c.limit = fmt.Sprintf("internal error of the generator: %v", r)
 		}
 	}()
 	fd := c.decl
